@@ -20,6 +20,7 @@ RULE = ('hosts = {real Linux interpreter, Darwin-shaped tables, scrambled tables
         'logs of a v3 dump; non-trivial = rendering compared across the three hosts and (for names) with the Darwin '
         'reference; distinct = distinct (section, case)')
 QUICK_SHARDS = 1
+NO_BB_FLAVOUR = True       # (formatted_kevents prints str(bytes): BytesWarning under -bb on the unchanged tree)
 NO_OPTIMIZED_FLAVOUR = True      # the hosts are subprocesses of their own; the -O / -OO interpreters are among them
 THOROUGH_SHARDS = 1
 HOSTS = ('real', 'darwin', 'scrambled', 'permuted', 'bsdlike', 'windowslike', 'real-hashseed-1', 'real-hashseed-4711', 'real-ascii-console',
